@@ -50,7 +50,8 @@ theorem locate_eq (cont : List Frag) (part : Nat) (h : part < cont.flatten.lengt
     unfold Msg.locate
     split
     · rename_i hge
-      have : part - f.length < fs.flatten.length := by simp at h; omega
+      have hl : (f :: fs).flatten.length = f.length + fs.flatten.length := by simp
+      have : part - f.length < fs.flatten.length := by omega
       obtain ⟨m', h1, h2⟩ := ih _ this
       refine ⟨m', h1, ?_⟩
       rw [h2]; simp [List.drop_append, List.drop_of_length_le hge]
@@ -82,6 +83,7 @@ theorem trim_eq (m : Msg) : ∃ m1, m.trim = .ok m1 ∧ m1.flat = trimFlat m.fla
     | some part =>
       obtain ⟨m', h1, h2⟩ := locate_eq m.cont part (findIdx?_lt hc)
       refine ⟨m', by simp [h1], ?_⟩
+      simp only [Msg.flat] at h2
       simp [h2, List.drop_append, List.drop_of_length_le]
     | none => exact ⟨m, rfl, by simp [Msg.flat]⟩
 
@@ -89,7 +91,7 @@ theorem trim_eq (m : Msg) : ∃ m1, m.trim = .ok m1 ∧ m1.flat = trimFlat m.fla
 
 /-- two scanner states are interchangeable when no comment set is given: same open quote, neither
     inside a comment, and the previous character is a backslash in both or in neither -/
-def TokSt.alike (s t : TokSt) : Prop :=
+def Flat.TokSt.alike (s t : TokSt) : Prop :=
   s.quote = t.quote ∧ s.skip = false ∧ t.skip = false ∧ ((s.prev == 92) = (t.prev == 92))
 
 theorem tokStep_alike (a : TokArgs) (hcom : a.com = []) (s t : TokSt) (h : s.alike t) (c : Byte) :
@@ -102,21 +104,21 @@ theorem tokStep_alike (a : TokArgs) (hcom : a.com = []) (s t : TokSt) (h : s.ali
   simp only [hs, ht, hcom, hq, hp, List.contains_nil, Bool.false_and, Bool.false_eq_true, if_false]
   by_cases h1 : (!a.esc.isEmpty && t.quote.isSome) = true
   · simp only [h1, if_true]
-    simp [TokSt.alike]
+    simp [Flat.TokSt.alike]
   · simp only [h1, if_false]
     by_cases h2 : (!a.esc.isEmpty && a.esc.contains c) = true
     · simp only [h2, if_true]
-      simp [TokSt.alike, hs, ht, hp]
+      simp [Flat.TokSt.alike, hs, ht, hp]
     · simp only [h2, if_false]
       cases a.tok with
       | some tk =>
         by_cases h3 : tk.contains c = true
         · simp [h3]
-        · simp [h3, TokSt.alike, hq, hs, ht]
+        · simp [h3, Flat.TokSt.alike, hq, hs, ht]
       | none =>
         by_cases h3 : (!isSpace c) = true
         · simp [h3]
-        · simp [h3, TokSt.alike, hq, hs, ht]
+        · simp [h3, Flat.TokSt.alike, hq, hs, ht]
 
 theorem scan_alike (a : TokArgs) (hcom : a.com = []) (l : List Byte) (s t : TokSt) (h : s.alike t) :
     match Flat.scan (tokStep a) s l, Flat.scan (tokStep a) t l with
